@@ -330,7 +330,8 @@ _RULE_EXTRA = {
     "C03": "; plus the size-boundary table (4097 blocks)",
     "C05": "; 1 in 4 keyed tuples with column-changing branches (add / remove / move columns per branch, shared new names), judged by column name; 1 in 4 with an all-empty key; 1 in 20 indices carry a second case, a history through the command line (`wrgl commit` / `branch create` / 3..4 `wrgl merge` steps with --ff / --no-ff / --ff-only / default: BRANCH behind, ahead of (by one or two commits), on the same commit as, or diverged from the commit merged in; a completed merge run again; merged again after one side moved on), the table of every branch read back after every merge and judged by the merge laws on a model of the commit graph",
     "C06": "; block indices built by IndexBlock (0..5 or 255 rows, keyed or keyless): written, read, re-written, stored, fetched, compared with the Lean codec; table profiles of real ingests decoded and re-encoded (no Lean model of the profile: re-encoding clauses only); 1 in 32 a history of 2..8 Save*/Delete* calls on one store that writes keys again (same content; other content under the same table sum for table index / profile), read back after every step and dumped at the end, against the finite map of Model/ObjStore.lean; 1 in 64 a stored table whose index and profile keys hold another table's / an older profiler's / damaged / the same / no bytes, refreshed by IndexTable + ProfileTable and compared with the same refresh onto absent keys",
-    "C07": "; 1 in 5 extra tables header-only; 1 table in 3 has a block (a middle one or the last) whose final row ends with an empty cell; commit times in 13 zones (whole-hour and fractional offsets on both sides of UTC); 1 case in 4 negotiated: histories of 2..8 commits with more merges, the destination asks for 1..2 commits it lacks and reports its tips (sometimes more, sometimes an unknown hash, in 1..2 rounds, depth 0..3, optionally acknowledging tables it has), the real ClosedSetsFinder picks the commit list, tables and commons that ObjectSender then sends; the transfer must succeed and leave every ancestor of the wants (tables within the depth) and nothing outside the wanted history",
+    "C07": "; 1 in 5 extra tables header-only; 1 table in 3 has a block (a middle one or the last) whose final row ends with an empty cell; commit times in 13 zones (whole-hour and fractional offsets on both sides of UTC); 1 case in 4 negotiated: histories of 2..8 commits with more merges, the destination asks for 1..2 commits it lacks and reports its tips (sometimes more, sometimes an unknown hash, in 1..2 rounds, depth 0..3, optionally acknowledging tables it has), the real ClosedSetsFinder picks the commit list, tables and commons that ObjectSender then sends; the transfer must succeed and leave every ancestor of the wants (tables within the depth) and nothing outside the wanted history; 1 case in 4 (and every other negotiated one): every packfile of the transfer is also delivered cut short to a copy of the destination as it was before that packfile (inside the file header, at every object boundary, at every byte of objects up to 256 bytes, at 16 bytes from either end plus 16 drawn in between of larger ones; at most about 400 cuts per case): a cut on an object boundary is accepted, any other is refused, and the copy holds exactly the complete objects before the cut, identical to the source's",
+    "C08": "; 1 case in 4: the refs live in rotating namespaces (heads, tags, remote-tracking, transaction refs txs/<id>/<branch>, custom); 1 case in 5: the session continues on the same finder after a refused request (a round whose wants include a commit no ref reaches, an unknown hash or a commit without its table, alone or with a legitimate want, placed before / between / after the generated rounds): refused rounds change nothing, everything sent must be justified by the accepted wants alone",
     "C09": "; every fourth case index adds one case of a kind chosen by the index (tag variant=…): multi-depth (3..4 heads forking from a shared trunk with 0..4 own commits, cross merges, `fetch --depth d` with d around the distance to the shared part), sender-fault (the remote's store fails its k-th read of a table / block / commit during a fetch, or a local table object is cut short before a push; the retry is judged too), "
            "second-remote (full or shallow clone, origin removed or kept, pushes to a second remote that is empty or holds a prefix; a crash of the command counts as a failed push), merge-shallow (after `fetch --depth 1|2`, `wrgl merge main <origin/main~j | sum>` in every mode: a moved branch head must have its table)",
     "C10": "; every fourth case index adds one case of a kind chosen by the index (tag variant=…): overlap-specs (2..3 refspecs over the same remote heads into remotes/origin/*, a custom ref and remotes/mirror/*, every pattern of '+' in command-line order, after the remote moved forward / sideways / back; each destination is judged by the '+' of its own refspec), "
